@@ -1,0 +1,92 @@
+//go:build verif
+
+// Machine-checked contracts for package parser (comment-only; see /verif/DESIGN.md).
+// The lexer behind Parser.LexToken is a callback here: it may return any token
+// or an error; what it returns for which text is the lexer's own contract.
+
+package parser
+
+//@ func advance
+//@   props C03 C18
+//@   nosafety
+//@   opt callback.LexToken=pure
+//@   requires parser != nil
+//@   assigns class:parser.Parser
+//@   ensures parser.PrevEnd == old(parser.Token.End)
+//@   ensures result != nil ==> parser.Token == old(parser.Token)
+//@   at call LexToken: assert arg0 == parser.Token.End
+
+//@ func peek
+//@   props C03
+//@   requires parser != nil
+//@   assigns nothing
+//@   nopanic
+//@   ensures result <==> parser.Token.Kind == Kind
+
+//@ func skip
+//@   props C03
+//@   nosafety
+//@   requires parser != nil
+//@   assigns class:parser.Parser
+//@   ensures result0 <==> old(parser.Token.Kind) == Kind
+//@   ensures !result0 ==> result1 == nil && parser.Token == old(parser.Token) && parser.PrevEnd == old(parser.PrevEnd)
+//@   ensures result0 ==> parser.PrevEnd == old(parser.Token.End)
+
+//@ func expect
+//@   props C03 C18
+//@   nosafety
+//@   requires parser != nil
+//@   assigns class:parser.Parser
+//@   ensures result0 == old(parser.Token)
+//@   ensures old(parser.Token.Kind) != kind ==> result1 != nil && parser.Token == old(parser.Token) && parser.PrevEnd == old(parser.PrevEnd)
+//@   ensures old(parser.Token.Kind) == kind ==> parser.PrevEnd == old(parser.Token.End)
+//@   at[C18] call NewSyntaxError: assert arg1 == parser.Token.Start
+
+//@ func expectKeyWord
+//@   props C03 C18
+//@   nosafety
+//@   requires parser != nil
+//@   assigns class:parser.Parser
+//@   ensures result0 == old(parser.Token)
+//@   ensures result1 == nil ==> old(parser.Token.Kind) == lexer.NAME && old(parser.Token.Value) == value
+//@   ensures !(old(parser.Token.Kind) == lexer.NAME && old(parser.Token.Value) == value) ==> result1 != nil && parser.Token == old(parser.Token)
+//@   at[C18] call NewSyntaxError: assert arg1 == parser.Token.Start
+
+//@ func unexpected
+//@   props C03 C18
+//@   nosafety
+//@   requires parser != nil
+//@   assigns nothing
+//@   ensures result != nil
+//@   at[C18] call NewSyntaxError: assert arg1 == atToken.Start || arg1 == parser.Token.Start
+
+//@ func loc
+//@   props C03 C18
+//@   nosafety
+//@   requires parser != nil
+//@   assigns nothing
+//@   ensures result != nil ==> result.Start == start && result.End == parser.PrevEnd
+
+//@ func parseName
+//@   props C03
+//@   nosafety
+//@   requires parser != nil
+//@   ensures result1 == nil ==> result0 != nil && old(parser.Token.Kind) == lexer.NAME && result0.Value == old(parser.Token.Value)
+//@   ensures old(parser.Token.Kind) != lexer.NAME ==> result1 != nil
+//@   ensures result1 == nil && result0.Loc != nil ==> result0.Loc.Start == old(parser.Token.Start) && result0.Loc.End == old(parser.Token.End)
+
+//@ func parseNamed
+//@   props C03
+//@   nosafety
+//@   requires parser != nil
+//@   ensures result1 == nil ==> result0 != nil && old(parser.Token.Kind) == lexer.NAME && result0.Name != nil
+//@   ensures old(parser.Token.Kind) != lexer.NAME ==> result1 != nil
+
+// Type : NamedType | ListType | NonNullType        ListType : [ Type ]
+//@ func parseType
+//@   props C03 C09
+//@   nosafety
+//@   requires parser != nil
+//@   ensures err == nil ==> ttype != nil
+//@   ensures old(parser.Token.Kind) != lexer.BRACKET_L && old(parser.Token.Kind) != lexer.NAME ==> err != nil
+//@   at call expect: assert arg1 == lexer.BRACKET_R
